@@ -31,3 +31,38 @@ package tsdb
 //@   ensures[nothing_durable_nothing_acknowledged] !has(f.persistSeq, leader) ==> calls(fn) == old(calls(fn))
 //@   ensures[flushed_and_applied_sequences_untouched] f.persistSeq == old(f.persistSeq) && f.seq == old(f.seq)
 //@ end
+
+//@ # ---- family lookup of a query (C13): a segment hands a query exactly those of its families whose own time range
+//@ # overlaps the query range - whatever segment the ends of the query range lie in ---------------------------------
+//@ uf famStart(ref) int64
+//@ uf famEnd(ref) int64
+//@ uf famOf(ref, int) ref
+//@ uf atoiOK(string) bool
+//@ uf atoiVal(string) int
+//@ extern func strconv.Atoi
+//@   modifies nothing
+//@   ensures (result1 == nil) == atoiOK(s) && (result1 == nil ==> result0 == atoiVal(s))
+//@ end
+//@ func DataFamily.TimeRange
+//@   norefine
+//@   modifies nothing
+//@   ensures result.Start == famStart(self) && result.End == famEnd(self) && famStart(self) <= famEnd(self)
+//@ end
+//@ func github.com/lindb/lindb/kv.Store.ListFamilyNames
+//@   norefine
+//@   modifies nothing
+//@ end
+//@ func segment.getOrLoadFamily
+//@   assume
+//@   modifies s.families[*]
+//@   ensures result != nil && result == cast(famOf(s, familyTime), "DataFamily")
+//@ end
+//@ func segment.GetDataFamilies
+//@   prop C13
+//@   arith math
+//@   requires s.kvStore != nil && timeRange.Start <= timeRange.End
+//@   modifies s.families[*]
+//@   ensures[only_families_that_overlap_the_query_range] forall(k, 0, len(result), result[k] != nil && famStart(result[k]) <= timeRange.End && timeRange.Start <= famEnd(result[k]))
+//@   loop 1 invariant forall(k, 0, len(result), result[k] != nil && famStart(result[k]) <= timeRange.End && timeRange.Start <= famEnd(result[k]))
+//@   loop 1 invariant[every_family_that_overlaps_the_query_range_is_returned] forall(i, 0, rangeindex + 1, (atoiOK(familyNames[i]) && famStart(famOf(s, atoiVal(familyNames[i]))) <= timeRange.End && timeRange.Start <= famEnd(famOf(s, atoiVal(familyNames[i])))) ==> exists(k, 0, len(result), result[k] == cast(famOf(s, atoiVal(familyNames[i])), "DataFamily")))
+//@ end
